@@ -50,9 +50,15 @@ func NewQuery(queryString string) (*Query, error) {
 	}
 
 	if query.stmt.Condition != nil {
+		cond := query.stmt.Condition
+		if be, ok := cond.(*influxql.BinaryExpr); ok && be.Op == influxql.OR {
+			// The statement is sent as text and OR binds weaker than AND:
+			// without parentheses the time range would only restrict the last operand.
+			cond = &influxql.ParenExpr{Expr: cond}
+		}
 		query.stmt.Condition = &influxql.BinaryExpr{
 			Op:  influxql.AND,
-			LHS: query.stmt.Condition,
+			LHS: cond,
 			RHS: &influxql.BinaryExpr{
 				Op:  influxql.AND,
 				LHS: startExpr,
